@@ -200,7 +200,7 @@ def run_job(job):
 
 def main(chk):
     quick = chk.tier == "quick"
-    n = 160 if quick else 1200
+    n = 640 if quick else 2000
     jobs = [{"id": "j%d" % i, "seed": job_seed(chk.seed, "C13", i), "tz": TZS[i % len(TZS)],
              "literals": 6 if quick else 14} for i in range(n)]
     chk.run_jobs(jobs, budget_s=300 if quick else 3000)
